@@ -197,7 +197,7 @@ impl <N: Numeric> ArrayExpLog<N> for Array<N> {
     }
 
     fn log(&self) -> Result<Self, ArrayError> {
-        self.logn(&Self::single(N::from(std::f64::consts::E)).unwrap())
+        self.map(|i| N::from(i.to_f64().ln()))
     }
 
     fn log2(&self) -> Result<Self, ArrayError> {
